@@ -272,7 +272,7 @@ func implModel(c *core.Ctx, pool *gjs.Pool, scens map[string]*scenario) {
 	}
 	cfg := func(dev, branch bool, runs int, inv string) string {
 		t := map[bool]string{true: "TRUE", false: "FALSE"}
-		return fmt.Sprintf("SPECIFICATION Spec\nCONSTANTS DevProxy = %s\n DevSuspend = %s\n DevGoexit = %s\n Branch = %s\n Runs = %d\nINVARIANT %s\nCHECK_DEADLOCK FALSE\n", t[dev], t[dev], t[dev], t[branch], runs, inv)
+		return fmt.Sprintf("SPECIFICATION Spec\nCONSTANTS DevProxy = %s\n DevSuspend = %s\n DevGoexit = FALSE\n Branch = %s\n Runs = %d\nINVARIANT %s\nCHECK_DEADLOCK FALSE\n", t[dev], t[dev], t[branch], runs, inv) // DevGoexit: the deviation was repaired in /repo (177c15f)
 	}
 	const invs = "TypeOK LeavesNoTrace OffsetBalance PsdScoped ListOnTop RunOnce OwnerAlive Refines Emit"
 	runModel := func(ps []*implProg, dev, branch bool, what string) (map[combo][]implOut, *tlcx.Result, bool) {
@@ -693,7 +693,7 @@ func implModel(c *core.Ctx, pool *gjs.Pool, scens map[string]*scenario) {
 				}
 			}
 			r, err := tlcx.Run(c, tlcx.Opts{Module: "UnwindJSTrace", Workers: 1, DFS: true, Timeout: 15 * time.Minute,
-				Cfg:   "SPECIFICATION TSpec\nCONSTANTS DevProxy = TRUE\n DevSuspend = TRUE\n DevGoexit = TRUE\n Branch = FALSE\n Runs = 2\nINVARIANT NotAccepted\nCONSTRAINT HW\nPOSTCONDITION HWReport\nCHECK_DEADLOCK FALSE\n",
+				Cfg:   "SPECIFICATION TSpec\nCONSTANTS DevProxy = TRUE\n DevSuspend = TRUE\n DevGoexit = FALSE\n Branch = FALSE\n Runs = 2\nINVARIANT NotAccepted\nCONSTRAINT HW\nPOSTCONDITION HWReport\nCHECK_DEADLOCK FALSE\n",
 				Files: map[string]string{"c08_impl_params.json": params(progs), "c08_impl_trace.ndjson": b.String()}})
 			if err != nil {
 				c.Infra(err)
